@@ -244,6 +244,8 @@ pub fn seq_campaigns(property: &str) -> Vec<SeqCampaign> {
                 rule: "as seq-main, but put_or_update is also generated for keys that are past their time-to-live and not yet swept, or deleted with the delete still queued (the loss of such an upsert, known finding F7 of C08, is noted and does not end the case): an upsert that gives such a key a new time-to-live makes it readable again until the new deadline, and the sweep of the old deadline must not remove it; non-trivial = >= 2 in-place upserts and a sweep that removed a key" },
         ],
         "C11" => vec![main("seq-bursts", 3000, 50_000, nt_c11, RULE_C11)],
+        "C12" => vec![SeqCampaign { name: "seq-ack-effect", params: profile("C11"), policy: Policy::default(), cases_quick: 2000, cases_thorough: 30_000, nt: nt_c11,
+            rule: "generated histories dominated by stall-window bursts (as seq-bursts of C11), judged for the acknowledgement clauses only: the status an acknowledgement reads must be the status the command ended with on the worker, a write acknowledged Accepted must have been executed by the worker, and an explicit weight of an accepted put_or_update must be the key's charged weight as soon as the acknowledgement has resolved; non-trivial = a burst with >= 2 queued writes on one key" }],
         "C13" => vec![SeqCampaign { name: "seq-after-shutdown", params: profile("C05"), policy: Policy::default(), cases_quick: 1500, cases_thorough: 20_000, nt: |s| s.accepted_puts >= 1 && s.writes >= 3,
             rule: "generated histories; at the end shutdown() is called twice, then all six write entry points must return Err and all seven read variants must return absent / empty for every key the history wrote (and one it never wrote); non-trivial = the history had an accepted put and >= 3 writes before the shutdown" }],
         "C15" => vec![SeqCampaign { name: "seq-access-accounting", params: profile("C02"), policy: Policy::default(), cases_quick: 3000, cases_thorough: 40_000, nt: |s| s.hits >= 5 && s.reads > s.hits,
